@@ -42,6 +42,9 @@ type c18Impl struct {
 func (i *c18Impl) Subscribe(ctx context.Context, q Query) error {
 	i.handler = q.NotificationHandler
 	i.w.attempts++
+	if ctx.Err() != nil {
+		return ctx.Err() // a cancelled context fails the subscription at once
+	}
 	if i.w.budget > 0 && i.w.h.Param("SUBFAIL", 0) == 1 && i.w.h.Range("subscribe", 0, 1) == 1 {
 		i.w.budget--
 		return errors.New("subscribe refused")
@@ -65,17 +68,11 @@ func (i *c18Impl) Close() error {
 func (i *c18Impl) Recv() error {
 	if !i.first {
 		i.first = true
-		select {
-		case <-i.ctx.Done():
-			return i.ctx.Err()
-		default:
-		}
 		return i.handler(Connected{}) // what the gNMI transport does on a (re)connected stream
 	}
-	// a closed transport, or one whose context was cancelled, delivers nothing further
+	// a closed transport delivers nothing further; messages already buffered by an established
+	// stream may still be delivered after its context was cancelled (as gRPC's receive buffer does)
 	select {
-	case <-i.ctx.Done():
-		return i.ctx.Err()
 	case <-i.closed:
 		return errors.New("transport closed")
 	default:
@@ -108,6 +105,9 @@ func VerifC18_CloseTerminates(h *zz.H) {
 		if w.budget > 0 && h.Param("NEWFAIL", 0) == 1 && h.Range("new", 0, 1) == 1 {
 			w.budget--
 			return nil, errors.New("connect refused")
+		}
+		if ctx.Err() != nil {
+			return nil, ctx.Err() // dialling with a cancelled context fails at once
 		}
 		return &c18Impl{ctx: ctx, w: w, closed: make(chan struct{})}, nil
 	})
